@@ -623,6 +623,43 @@ def run(ctx):
             ok = False
         return (it[1], "element-wise get_copy in order") if ok else (None, "elements are not copied position by position")
 
+    def r5_state():
+        # `execute` and `get_copy` take &self: a compiled node can carry state from one evaluation to the next, or share it with
+        # its cached copies, only through interior mutability or a shared value handle in one of its fields.  Field types are the
+        # resolved ones (aliases expanded); crate-local types are followed, except datamodel::Data (a constant's value; evaluation
+        # must clone it, which &self enforces, and its lexer-made values are scalars).
+        import re
+        SHARED = re.compile(r"\b(DataArc|Arc|Rc|Weak|Mutex|RwLock|Cell|RefCell|OnceCell|OnceLock|LazyCell|LazyLock|UnsafeCell|Atomic[A-Za-z0-9]+)\b|\*(const|mut) ")
+        impls = sorted(F.impls.get(EXPR + "Expression::execute", ()))
+        ctx.floor("R10.5", "types implementing Expression", len(impls), 12)
+
+        def offending(tstr, seen):
+            m = SHARED.search(tstr)
+            if m:
+                return "%s in `%s`" % (m.group(0).strip(), tstr)
+            for name in re.findall(r"[A-Za-z_][A-Za-z0-9_]*(?:::[A-Za-z_][A-Za-z0-9_]*)+", tstr):
+                if name in seen or name == "datamodel::Data" or name not in F.types:
+                    continue
+                seen.add(name)
+                for v in F.types[name].get("variants", ()):
+                    for fname, fty in v["f"]:
+                        r = offending(fty, seen)
+                        if r:
+                            return "%s.%s: %s" % (name.split("::")[-1], fname, r)
+            return None
+        for path in impls:
+            fn = F.fns[path]
+            tname = fn.self_ty
+            t = F.types.get(tname)
+            if t is None:
+                ctx.ob("R10.5", "%s|fields known" % tname, False, fn.where, "no type facts for %s" % tname)
+                continue
+            for v in t["variants"]:
+                for fname, fty in v["f"]:
+                    bad = offending(fty, {tname})
+                    ctx.ob("R10.5", "%s|field %s holds no shared or interior-mutable state" % (tname.split("::")[-1], fname), bad is None, fn.where,
+                           ("type %s" % fty) if bad is None else "a compiled node would share this with its cached copies / keep it across evaluations: %s" % bad)
+
     def r5_cache():
         cf = F.fn("datamodel::expression_engine::RFsmExpressionDatamodel::compile")
         selfb, srcb = cf.params[0]["b"], cf.params[1]["b"]
@@ -748,5 +785,6 @@ def run(ctx):
         muts = mutations_of_field(F, "SourceCode", "source_id")
         ctx.ob("R10.5", "datamodel::SourceCode|source_id is never re-assigned", not muts, "", "%d mutation(s) of SourceCode.source_id" % len(muts))
     ctx.guard("R10.5", r5_copy)
+    ctx.guard("R10.5", r5_state)
     ctx.guard("R10.5", r5_cache)
     ctx.guard("R10.5", r5_keys)
